@@ -527,6 +527,9 @@ func clRun(cfg *config, toks []string) string {
 		c := exec.Command(bin, args...)
 		c.Dir = cwd
 		c.Env = []string{"HOME=" + home, "PATH=/usr/bin:/bin", "NO_COLOR=1"}
+		if tz := cvField(toks, "tz"); tz != "" {
+			c.Env = append(c.Env, "TZ="+tz) // the user's time zone: no option is a local time
+		}
 		if cmdName == "convert" && iomode[0] == 's' {
 			c.Stdin = bytes.NewReader(input) // a pipe
 		}
@@ -934,7 +937,11 @@ func genCL(cfg *config, r *rng, i int, s *sink) string {
 		}
 		in = hexStr(strings.Join(pts, ";"))
 	}
-	return fmt.Sprintf("cl cmd=%s which=%s F=%s C=%s H=%s io=%s in=%s", cmd, which, f, c, h, io, in)
+	tz := ""
+	if r.chance(1, 2) {
+		tz = " tz=" + pick(r, []string{"America/New_York", "Asia/Kolkata", "Pacific/Auckland", "America/Los_Angeles", "Europe/London"})
+	}
+	return fmt.Sprintf("cl cmd=%s which=%s F=%s C=%s H=%s io=%s%s in=%s", cmd, which, f, c, h, io, tz, in)
 }
 
 func corpusCL(cfg *config) []string {
